@@ -82,7 +82,8 @@ pub fn stdfs_domain(pre: &Tree, s: &str, d: &str) -> bool {
     s != "/" && !through_link(s) && !through_link(d)
 }
 
-const CMODE: u32 = 0o711;
+// (group-write bit set: a directory created with mkdir(mode) instead of mkdir+chmod loses it to the umask)
+const CMODE: u32 = 0o731;
 
 fn slots() -> Vec<Slot> {
     let mut v = vec![Slot::Missing, Slot::File, Slot::Dir];
@@ -152,11 +153,12 @@ pub fn build(t: &TreeSpec) -> Memfs {
     }
     // flavour: non-default modes / owners on some entries
     if t.flavour & 1 == 1 {
-        for p in ["/a", "/b/b", "/a/a"] {
+        // (nested directories get group/other write bits: what the umask would take away from a plain mkdir)
+        for (p, dm, fm) in [("/a", 0o700, 0o604), ("/b/b", 0o777, 0o666), ("/a/a", 0o775, 0o604)] {
             if m.is_dir(p) {
-                let _ = m.chmod_b(p).and_then(|b| b.all(0o700).no_recurse().exec());
+                let _ = m.chmod_b(p).and_then(|b| b.all(dm).no_recurse().exec());
             } else if m.is_file(p) {
-                let _ = m.chmod_b(p).and_then(|b| b.all(0o604).no_recurse().exec());
+                let _ = m.chmod_b(p).and_then(|b| b.all(fm).no_recurse().exec());
             }
         }
     }
@@ -402,6 +404,30 @@ pub fn check_copy(case: &CopyCase) -> CaseResult {
                 let (a, b) = (pre.subtree(target), post.subtree(target));
                 if a != b || a.iter().any(|k| pre.nodes.get(k) != post.nodes.get(k)) {
                     return fail("followed-source-changed", format!("the directory {:?} the source link points to changed: {:?} -> {:?}", target, a, b));
+                }
+            }
+        }
+        // placement in the one shape where nothing is ambiguous: the source itself is a link to a directory that
+        // holds no links, and the place the copy goes to is free - the new entries are exactly that directory's
+        // subtree, rooted at dst (missing dst) or at dst/<name of the link or of its target> (existing directory)
+        if let Some(Node::Link { target, .. }) = pre.nodes.get(s) {
+            let tsub = pre.subtree(target);
+            if pre.kind(target) == Some(Kind::Dir) && !tsub.iter().any(|k| pre.kind(k) == Some(Kind::Link)) {
+                let cands: Vec<String> = match pre.kind(d) {
+                    Some(Kind::Dir) => vec![crate::refpath::join(d, &crate::refpath::base(s)), crate::refpath::join(d, &crate::refpath::base(target))],
+                    None if pre.kind(&parent(d)) == Some(Kind::Dir) => vec![d.to_string()],
+                    _ => vec![],
+                };
+                let free = !cands.is_empty() && cands.iter().all(|c| !pre.nodes.contains_key(c) && !is_under(c, target));
+                if free {
+                    let new: std::collections::BTreeSet<String> = post.nodes.keys().filter(|k| !pre.nodes.contains_key(*k)).cloned().collect();
+                    let fits = cands.iter().any(|c| {
+                        let want: std::collections::BTreeSet<String> = tsub.iter().map(|k| format!("{}{}", if c == "/" { "" } else { c.as_str() }, &k[target.len().min(k.len())..])).map(|k| if k.is_empty() { "/".to_string() } else { k }).collect();
+                        want == new
+                    });
+                    if !fits {
+                        return fail("follow-copy-misplaced", format!("the link {:?} -> directory {:?} was copied with follow to {:?}: new entries {:?} are not that directory's subtree rooted at any of {:?}", s, target, d, new, cands));
+                    }
                 }
             }
         }
